@@ -27,7 +27,8 @@ def build(quiet=True, bins=("pworker",)):
     env = dict(os.environ)
     env["CARGO_TARGET_DIR"] = pool.BUILD
     env["CARGO_NET_OFFLINE"] = "true"
-    lock = os.path.join(ROOT, "harness", "Cargo.lock")
+    hdir = os.environ.get("VX_HARNESS") or os.path.join(ROOT, "harness")
+    lock = os.path.join(hdir, "Cargo.lock")
     if not os.path.exists(lock):
         import shutil
         shutil.copy("/repo/Cargo.lock", lock)
@@ -39,7 +40,7 @@ def build(quiet=True, bins=("pworker",)):
     else:
         cmd += ["--bins"]
     p = subprocess.run(cmd,
-                       cwd=os.path.join(ROOT, "harness"), env=env,
+                       cwd=hdir, env=env,
                        stdout=subprocess.PIPE, stderr=subprocess.STDOUT)
     if p.returncode != 0:
         sys.stdout.write(p.stdout.decode("utf-8", "replace")[-6000:])
